@@ -67,9 +67,41 @@ def gen_case(mod, seed, tier):
 
 
 def _worker(args):
+    """Run one chunk of seeds in a pristine child process (forked from a
+    worker that never executes a case itself), so that state the code under
+    test may keep process-wide can only come from the runs of this chunk: a
+    violation that depends on it is then reproducible from the chunk prefix."""
+    import pickle
+    r, wfd = os.pipe()
+    pid = os.fork()
+    if pid == 0:
+        code = 0
+        try:
+            os.close(r)
+            data = pickle.dumps(_run_chunk(args))
+            with os.fdopen(wfd, 'wb') as f:
+                f.write(data)
+        except BaseException:
+            traceback.print_exc()
+            code = 3
+        os._exit(code)
+    os.close(wfd)
+    with os.fdopen(r, 'rb') as f:
+        data = f.read()
+    _, status = os.waitpid(pid, 0)
+    if not data:
+        prop, seeds = args[0], args[1]
+        return [{'seed': seeds[0], 'harness':
+                 'chunk child died (status %r) on seeds %s..%s'
+                 % (status, seeds[0], seeds[-1])}]
+    return pickle.loads(data)
+
+
+def _run_chunk(args):
     prop, seeds, tier, selftest_every = args
     mod = load_check(prop)
     out = []
+    done = []
     for seed in seeds:
         case = gen_case(mod, seed, tier)
         res = run_one(mod, case)
@@ -87,8 +119,11 @@ def _worker(args):
         if res.get('violations'):
             item['violations'] = res['violations']
             item['case'] = case
+            item['prefix'] = list(done)
+        done.append(seed)
         if selftest_every and seed % selftest_every == 0:
             res2 = run_one(mod, gen_case(mod, seed, tier))
+            done.append(seed)
             if res2.get('digest') != res.get('digest'):
                 item['nondet'] = (res.get('digest'), res2.get('digest'))
         out.append(item)
@@ -187,9 +222,18 @@ def main(prop, tier='quick', replay=None, selftest=False, runs=None,
     for ln in known_lines:
         print(ln)
     reported = []
-    for sig in new_sigs[:3]:
-        r, v = by_sig[sig][0]
-        path = report_violation(mod, r['case'], v)
+    attempts = 0
+    for sig in new_sigs:
+        if len(reported) >= 3 or attempts >= 10:
+            break
+        attempts += 1
+        path = None
+        # a class may have several witnesses: try a few of them
+        for r, v in by_sig[sig][:3]:
+            path = report_violation(mod, r['case'], v,
+                                    prefix=r.get('prefix'), tier=tier)
+            if path is not None:
+                break
         if path is None:
             harness.append('violation %s did not reproduce in a fresh '
                            'process (determinism fault)' % sig)
@@ -204,9 +248,9 @@ def main(prop, tier='quick', replay=None, selftest=False, runs=None,
             print('  class %s: %d runs, e.g. seed %s: %s' % (
                 sig, len(by_sig[sig]), by_sig[sig][0][0]['seed'],
                 str(by_sig[sig][0][1].get('detail'))[:200]))
-    if len(new_sigs) > 3:
+    if len(new_sigs) > attempts:
         print('  (+%d further violation classes not minimised)'
-              % (len(new_sigs) - 3))
+              % (len(new_sigs) - attempts))
 
     wall = time.time() - t0
     write_evidence(mod, tier, base_seed, good, viol, known_lines, reported,
@@ -254,8 +298,18 @@ def replay_known(mod, known):
     return out
 
 
-def report_violation(mod, case, v):
-    """Minimise, write the replay file, confirm in a fresh interpreter."""
+def report_violation(mod, case, v, prefix=None, tier='quick'):
+    """Minimise, write the replay file, confirm in a fresh interpreter.  If
+    the single case does not reproduce on its own, the violation depends on
+    state left behind by the earlier runs of its chunk: then the replay file
+    names those runs as a prefix to execute first."""
+    path = _report_violation(mod, case, v, None, tier)
+    if path is None and prefix:
+        path = _report_violation(mod, case, v, prefix, tier)
+    return path
+
+
+def _report_violation(mod, case, v, prefix, tier):
     sig = v['sig']
 
     def still_fails(c):
@@ -266,17 +320,21 @@ def report_violation(mod, case, v):
             if x['sig'] == sig:
                 return res
         return None
-    try:
-        small = shrink_case(mod, case, still_fails, budget_s=60)
-    except Exception:
-        small = case
-    res = still_fails(small)
-    if res is None:
-        small = case
-        res = still_fails(case)
+    if prefix:
+        small = dict(case)        # no minimisation across runs
+        small['prefix'] = {'tier': tier, 'seeds': list(prefix)}
+    else:
+        try:
+            small = shrink_case(mod, case, still_fails, budget_s=60)
+        except Exception:
+            small = case
+        res = still_fails(small)
         if res is None:
-            return None
-    small = dict(small)
+            small = case
+            res = still_fails(case)
+            if res is None:
+                return None
+        small = dict(small)
     small['expect'] = {'sig': sig}
     small['hashseed'] = os.environ.get('PYTHONHASHSEED', HASHSEED_DEFAULT)
     rdir = os.environ.get('VERIF_REPLAY_DIR') or os.path.join(ROOT, 'replays')
@@ -298,6 +356,11 @@ def report_violation(mod, case, v):
 def do_replay(mod, path, quiet=False):
     with open(path) as f:
         case = util.loads(f.read())
+    pre = case.pop('prefix', None)
+    if pre:
+        # the violation depends on process-wide state left by earlier runs
+        for s0 in pre['seeds']:
+            run_one(mod, gen_case(mod, s0, pre['tier']))
     res = run_one(mod, case)
     if 'harness' in res:
         print('HARNESS-FAULT: %s' % res['harness'])
@@ -386,6 +449,41 @@ def merge_counts(dst, src):
             dst[k] = dst.get(k, 0) + v
 
 
+def sensitivity_info(prop):
+    """Kill matrix recorded by tools/mutants.py and tools/seeded.py (run
+    separately; this run did not re-execute them)."""
+    out = {'note': 'results of tools/mutants.py (seeded mutants) and '
+                   'tools/seeded.py (changes written by independent '
+                   'sub-agents), recorded when those tools were last run'}
+    try:
+        with open(os.path.join(ROOT, 'mutants', 'results.json')) as f:
+            m = json.load(f)
+        mine = {k: v for k, v in m.items() if k.startswith(prop + '-')
+                and isinstance(v, dict)}
+        out['mutants_total'] = len(mine)
+        out['mutants_killed'] = sorted(k for k, v in mine.items()
+                                       if v.get('killed'))
+        out['mutants_surviving'] = sorted(k for k, v in mine.items()
+                                          if not v.get('killed'))
+    except Exception:
+        pass
+    try:
+        import glob
+        det = {}
+        for mp in glob.glob(os.path.join(ROOT, 'seeded', '*', 'meta.json')):
+            with open(mp) as f:
+                d = json.load(f)
+            if d.get('property') != prop:
+                continue
+            name = os.path.basename(os.path.dirname(mp))
+            det[name] = any(v.get('exit') == 1 and k.startswith(prop + '/')
+                            for k, v in d.get('checks', {}).items())
+        out['subagent_changes'] = det
+    except Exception:
+        pass
+    return out
+
+
 def write_evidence(mod, tier, seed, good, viol, known_lines, reported, wall,
                    stopped_early, nondet, harness):
     stats = {}
@@ -435,6 +533,7 @@ def write_evidence(mod, tier, seed, good, viol, known_lines, reported, wall,
                                        if r['seed'] % 50 == 0]),
                 'mismatches': len(nondet)},
             'harness_faults': len(harness),
+            'sensitivity': sensitivity_info(mod.PROP),
             'real_code': getattr(mod, 'REAL', []),
             'stubs': getattr(mod, 'STUBS', []),
         },
